@@ -128,7 +128,7 @@ MANIFEST = {
         text=("TLC decides it three times: (1) the contract NatBlocks.tla is model-checked to imply the property for every allocator it accepts; "
               "(2) an implementation-shaped TLA+ model of AllocateNAT/DeallocateNAT (one action per critical section) is model-checked against the same contract under "
               "every schedule - the repaired design passes, the design as found yields the counterexamples that were replayed on the code; (3) the behaviour of the real "
-              "nat.Manager - transition tables closed to a fixed point for 11-14 port/address configurations with up to 6 subscribers, seeded random histories, and every "
+              "nat.Manager - transition tables closed to a fixed point for 12 (quick) or 16 (thorough) port-range x public-address configurations with up to 6 subscribers, seeded random histories, and every "
               "interleaving of the gate-delimited critical sections of 2-3 concurrent calls - is walked by TLC with the contract as monitor, every clause evaluated at "
               "every step including between the critical sections. Bounded by the alphabet, the subscriber/address counts and the number of concurrent calls."),
         technique="TLA+ contract + implementation-shaped design spec + TLC over transition tables, histories and gate-scheduled interleavings extracted from the real nat.Manager with captured log",
